@@ -1,6 +1,7 @@
 // C19: drives the five real hierarchical lookups of vouch's util package (BeaconNodeAddresses,
 // Timeout, LogLevel, ProcessConcurrency, HierarchicalBool) on generated configuration trees set
-// through viper (override, default, merged map, JSON document, YAML document) and generated
+// through viper (override, default, merged map, JSON document, YAML document, a mix of default +
+// file + override, environment variables as main.go binds them) and generated
 // dotted paths, and prints each tree with the calls and what they returned as a Gallina case for
 // Check.C19.
 package c19
@@ -9,6 +10,7 @@ import (
 	"bytes"
 	"encoding/json"
 	"fmt"
+	"os"
 	"sort"
 	"strings"
 	"testing"
@@ -39,7 +41,7 @@ type Query struct {
 }
 
 type Input struct {
-	Layer    string   `json:"layer"` // set | default | config | json | yaml
+	Layer    string   `json:"layer"` // set | default | config | json | yaml | mixed | env
 	DefLevel int      `json:"deflevel"`
 	Leaves   []Leaf   `json:"leaves"`
 	Queries  []Query  `json:"queries"`
@@ -350,7 +352,7 @@ func (g *gen) queryPath(spines [][]string) (string, string) {
 	}
 }
 
-var layers = []string{"set", "default", "config", "json", "yaml"}
+var layers = []string{"set", "default", "config", "json", "yaml", "mixed", "env"}
 var defLevels = []int{-1, 0, 1, 2, 3, 4, 5, 7}
 
 func (g *gen) settingsList() []string {
@@ -458,8 +460,45 @@ func (g *gen) focused() Input {
 	return in
 }
 
+// forEnv rewrites the leaves into what environment variables can carry: every value is a string
+// (lists are space-separated, as vouch's own tests write them), and an unset or empty variable is
+// no leaf at all.
+func forEnv(leaves []Leaf) []Leaf {
+	var out []Leaf
+	for _, l := range leaves {
+		switch {
+		case l.Class == "map" || l.Kind == "nil":
+			continue
+		case l.Kind == "int":
+			l.Kind, l.S, l.I = "str", fmt.Sprintf("%d", l.I), 0
+		case l.Kind == "bool":
+			l.Kind, l.S, l.B = "str", fmt.Sprintf("%t", l.B), false
+		case l.Kind == "list":
+			l.Kind, l.S, l.L = "str", strings.Join(l.L, " "), nil
+		}
+		if l.S == "" {
+			continue
+		}
+		out = append(out, l)
+	}
+	return out
+}
+
+func finish(in Input) Input {
+	if in.Layer == "env" {
+		in.Leaves = forEnv(in.Leaves)
+	}
+	return in
+}
+
 // ---------------------------------------------------------------------------------------------
 // Driving the implementation.
+
+var envReplacer = strings.NewReplacer("-", "_", ".", "_")
+
+func envName(key []string) string {
+	return "VOUCH_" + strings.ToUpper(envReplacer.Replace(strings.Join(key, ".")))
+}
 
 func goValue(l Leaf) any {
 	switch l.Kind {
@@ -497,9 +536,42 @@ func nested(leaves []Leaf) map[string]any {
 	return root
 }
 
-func install(in Input) error {
+// install puts the tree into viper through the case's layer and returns the clean-up.
+func install(in Input) (func(), error) {
 	viper.Reset()
+	cleanup := func() { viper.Reset() }
 	switch in.Layer {
+	case "env": // as main.go: prefix VOUCH, '-' and '.' replaced by '_', AutomaticEnv
+		viper.SetEnvPrefix("VOUCH")
+		viper.SetEnvKeyReplacer(envReplacer)
+		viper.AutomaticEnv()
+		var names []string
+		for _, l := range in.Leaves {
+			if l.Kind != "str" {
+				return cleanup, fmt.Errorf("env layer carries strings only, got %s", l.Kind)
+			}
+			names = append(names, envName(l.Key))
+			os.Setenv(envName(l.Key), l.S)
+		}
+		return func() {
+			for _, n := range names {
+				os.Unsetenv(n)
+			}
+			viper.Reset()
+		}, nil
+	case "mixed": // as production: defaults, a configuration file and overrides at once
+		var cfg []Leaf
+		for i, l := range in.Leaves {
+			switch (i + len(l.Key)) % 3 {
+			case 0:
+				viper.SetDefault(strings.Join(l.Key, "."), goValue(l))
+			case 1:
+				viper.Set(strings.Join(l.Key, "."), goValue(l))
+			default:
+				cfg = append(cfg, l)
+			}
+		}
+		return cleanup, viper.MergeConfigMap(nested(cfg))
 	case "set":
 		for _, l := range in.Leaves {
 			viper.Set(strings.Join(l.Key, "."), goValue(l))
@@ -509,18 +581,18 @@ func install(in Input) error {
 			viper.SetDefault(strings.Join(l.Key, "."), goValue(l))
 		}
 	case "config":
-		return viper.MergeConfigMap(nested(in.Leaves))
+		return cleanup, viper.MergeConfigMap(nested(in.Leaves))
 	case "json", "yaml":
 		doc, err := json.Marshal(nested(in.Leaves))
 		if err != nil {
-			return err
+			return cleanup, err
 		}
 		viper.SetConfigType(in.Layer) // a JSON document is a YAML document as well
-		return viper.ReadConfig(bytes.NewReader(doc))
+		return cleanup, viper.ReadConfig(bytes.NewReader(doc))
 	default:
-		return fmt.Errorf("unknown layer %q", in.Layer)
+		return cleanup, fmt.Errorf("unknown layer %q", in.Layer)
 	}
-	return nil
+	return cleanup, nil
 }
 
 func strList(l []string) string {
@@ -664,7 +736,9 @@ func classify(in Input) (tags []string, nontrivial bool, counts []string) {
 // ---------------------------------------------------------------------------------------------
 
 func runCase(t *testing.T, col *Collector, in Input) {
-	if err := install(in); err != nil {
+	cleanup, err := install(in)
+	defer cleanup()
+	if err != nil {
 		t.Fatalf("installing the configuration (%s): %v", in.Layer, err)
 	}
 	saved := zerologger.Logger
@@ -679,7 +753,6 @@ func runCase(t *testing.T, col *Collector, in Input) {
 		observed = append(observed, obs)
 		col.Count("fn:" + q.Fn)
 	}
-	viper.Reset()
 
 	leaves := make([]string, 0, len(in.Leaves))
 	for _, l := range in.Leaves {
@@ -714,11 +787,11 @@ func TestC19(t *testing.T) {
 	for i := 0; i < n; i++ {
 		g := &gen{r: rng.Fork()}
 		if g.r.Chance(2, 5) {
-			in := g.focused()
+			in := finish(g.focused())
 			in.Tags = append(in.Tags, "gen:focused")
 			ins = append(ins, in)
 		} else {
-			in := g.random()
+			in := finish(g.random())
 			in.Tags = append(in.Tags, "gen:random")
 			ins = append(ins, in)
 		}
